@@ -259,7 +259,7 @@ fn record(f: &Fun, filter: char, via: &str, omitted: bool, st: &mut Stats) {
 pub fn run(ctx: &mut Ctx) -> Result<(), Violation> {
     ctx.rule = "cases = (function f as truth table on ids, filter). Exhaustive: every function of <= 4 variables under id maps {0,1,2,3} and {1,3,4,8} x filters True/False/Any; sequences of four retain calls with every order of filters on ONE environment (all 3-variable functions); random: functions of 5..8 variables; \
                 CLI: `rsbdd --evaluate=<DNF of f> -c <spelling> [-f t|False|any] -t` for sampled functions, every accepted spelling and every combination with a row filter. Oracle on truth tables: True => f <= r, False => r <= f, Any => r is f; r ordered, reduced, tests only variables f depends on, consists of the environment's shared nodes. \
-                Non-trivial = at least one choice is actually omitted (r != f); distinct by (table, ids, filter)."
+                Non-trivial = at least one choice is actually omitted (r != f); distinct by (table, ids, filter). Operand provenance: created in the environment through mk_choice (default), or - in a share of the random cases and in dedicated stages - plain values that belong to no environment / nodes of another environment (what BDD::<usize>::from(named) and the repository's own parser tests produce)."
         .to_string();
 
     for (k, maps) in [
